@@ -1,9 +1,12 @@
 /*
  * c16_ba_memcmp.h — pointwise model of libc memcmp for the verifier (trusted libc semantics, C11 7.24.4.1):
  *   both regions must be readable for n bytes (n > 0);
- *   result == 0  =>  a[j] == b[j] for every j < n        (stated for the ONE ghost byte address verif_p1, a side)
- *   result != 0  =>  there is a w < n with a[w] != b[w]  (the witness address a + w is published in the ghost
- *                                                          verif_p2: Skolem form of the existential)
+ *   result == 0  =>  a[j] == b[j] for every j < n        (stated for ONE ghost byte: the byte at offset verif_g3 of
+ *                                                          the object a points into, if it lies in a[0..n))
+ *   result != 0  =>  there is a w < n with a[w] != b[w]  (the object offset of a + w is published in the ghost
+ *                                                          verif_g4: Skolem form of the existential)
+ * Ghosts are object OFFSETS, not pointers: a pointer ghost that is havocked by a contract has an unknown points-to
+ * set in the verifier and dereferences to nothing useful.
  * The sign of a non-zero result is left arbitrary (no caller here uses it).  Used instead of CBMC's built-in byte
  * loop, which needs unwinding up to n.  Vanishes in native replays (real libc memcmp is used there).
  */
@@ -11,8 +14,8 @@
 #define C16_BA_MEMCMP_H
 #ifndef VERIF_NATIVE
 #include <stddef.h>
-extern const unsigned char *verif_p1;	/* ghost: address of one arbitrary byte (chosen by the harness) */
-extern const unsigned char *verif_p2;	/* ghost: address of a differing byte, written when the result is != 0 */
+extern unsigned long long verif_g3;	/* ghost: object offset of one arbitrary byte (chosen by the harness) */
+extern unsigned long long verif_g4;	/* ghost: object offset of a differing byte, written when the result is != 0 */
 int memcmp(const void *a, const void *b, size_t n)
 {
 	const unsigned char *pa = (const unsigned char *)a, *pb = (const unsigned char *)b;
@@ -20,12 +23,13 @@ int memcmp(const void *a, const void *b, size_t n)
 	size_t w;
 	__CPROVER_assert(n == 0 || (__CPROVER_r_ok(pa, n) && __CPROVER_r_ok(pb, n)), "CHECK:memcmp reads n bytes of both regions");
 	if (r == 0) {
-		if (__CPROVER_same_object(verif_p1, pa) && verif_p1 >= pa && verif_p1 < pa + n)
-			__CPROVER_assume(*verif_p1 == pb[verif_p1 - pa]);
+		size_t j = verif_g3 - (unsigned long long)__CPROVER_POINTER_OFFSET(pa);
+		if (j < n)
+			__CPROVER_assume(pa[j] == pb[j]);
 	} else {
 		__CPROVER_assume(w < n);
 		__CPROVER_assume(pa[w] != pb[w]);
-		verif_p2 = pa + w;
+		verif_g4 = (unsigned long long)__CPROVER_POINTER_OFFSET(pa) + w;
 	}
 	return r;
 }
